@@ -38,6 +38,7 @@ KF_LEAK = 'activity-nested-params-leak'
 KF_WALRUS = 'activity-walrus-in-comprehension'
 KF_FREE = 'activity-free-vars-name-based'
 KF_CUT = 'activity-lambda-in-annotation-ends-pass'
+KF_PAREN = 'activity-parenthesized-annotation-binds'
 COMPS = ('listcomp', 'setcomp', 'dictcomp', 'genexpr')
 
 
@@ -191,6 +192,13 @@ def annotation_pass_cut(d):
                             lams.add(id(x))
             return names, mentioned, lams
     return set(), set(), set()
+
+
+def paren_annotation_names(fn):
+    """names x of value-less annotated assignments with a parenthesised target, `(x): T` (AnnAssign.simple == 0): CPython
+    neither stores nor binds x (symtable.c binds an annotated name only when the target is simple or there is a value)"""
+    return set(n.target.id for n, _ in block_walk(fn)
+               if isinstance(n, ast.AnnAssign) and isinstance(n.target, ast.Name) and not n.simple and n.value is None)
 
 
 def nested_param_names(fn):
@@ -377,6 +385,10 @@ def oracle_static(src, node, quirks):
         cut_names = set()
         for b, _ in block_walk(fn):
             cut_names |= cut.get(id(b), set())
+        paren_deep = paren_annotation_names(fn)
+        for b in nested_blocks(fn):
+            if not isinstance(b, ast.ClassDef):
+                paren_deep |= paren_annotation_names(b)
         cut_deep = set(cut_names)
         for b in nested_blocks(fn):
             cut_deep |= cut.get(id(b), set())
@@ -394,6 +406,9 @@ def oracle_static(src, node, quirks):
             missing = set()
         if extra and extra <= cut_names:
             known.add(KF_CUT)
+            extra = set()
+        if extra and extra <= paren_annotation_names(fn):
+            known.add(KF_PAREN)
             extra = set()
         if extra or missing:
             failures.append(('bound locals differ from CPython', '%s: analysis-only %s, CPython-only %s' % (where, sorted(extra), sorted(missing))))
@@ -437,6 +452,8 @@ def oracle_static(src, node, quirks):
                 known.add(KF_WALRUS)
             elif nme in cut_deep:
                 known.add(KF_CUT)
+            elif nme in paren_deep:
+                known.add(KF_PAREN)
             elif nme in name_based:
                 known.add(KF_FREE)
             else:
@@ -501,6 +518,7 @@ def run_events(src, dv):
     go.d = {}
     glb['GO'] = go
     glb['GV'] = 5
+    glb['GH'] = lambda *a: go
     glb['TY'] = int
     glb['GW'] = (3, 4)
     glb['GX'] = glb['GY'] = 0
